@@ -8,6 +8,7 @@ cd "$(dirname "$0")/.."
 git -C $S checkout -q --detach $(git -C /repo rev-parse HEAD); git -C $S checkout -q -- .
 for d in $(ls -d $src/*/ | sort -V); do
   n=$(basename $d)
+  [ "$n" -lt "${START:-1}" ] && continue
   git -C $S apply $d/patch.diff || { echo "$n APPLY-FAILED"; continue; }
   files=$(python3 -c "import json;print(' '.join(json.load(open('$d/meta.json')).get('files',[])))")
   checks="C09 C10 C11 C14 C18 C19"
